@@ -552,7 +552,7 @@ Proof. vm_compute. repeat split; reflexivity. Qed.
 Example C15_ex_apt_header_only_unchecked :
   apt_ask false true 1092 6 [100; 4; 1; 0; 1; 80] = (Ok [100; 4; 1; 0; 1; 80], []) /\
   apt_ask true true 1092 6 [100; 4; 1; 0; 1; 80] = (Err EInstr, []).
-Proof. vm_compute. reflexivity. Qed.
+Proof. vm_compute. split; reflexivity. Qed.
 
 (* retry bound as a parameter: good reply on the 3rd read; bound 2 -> the payload, bound 1 -> an error *)
 Example C15_ex_ib_attempt :
